@@ -234,29 +234,95 @@ func c14(w *core.World, r *core.Report) {
 
 	r.Rule("R14.7", "sync-mode start point: greatest end offset wins, ties by mtime", 1)
 	if f := fn(w, r, "pkg/redis/checkpoint.LoadBisyncLatestStartRecord"); f != nil {
-		var gt, eq, mt bool
-		var odd []string
-		for _, in := range core.Instrs(f) {
-			b, ok := in.(*ssa.BinOp)
-			if !ok {
-				continue
-			}
-			fx, fy := fieldNameOfLoad(b.X), fieldNameOfLoad(b.Y)
-			if fx == "" || fx != fy {
-				continue
-			}
-			switch {
-			case fx == "EndOffset" && b.Op == token.GTR:
-				gt = true
-			case fx == "EndOffset" && b.Op == token.EQL:
-				eq = true
-			case fx == "MTime" && b.Op == token.GTR:
-				mt = true
-			default:
-				odd = append(odd, fx+" "+b.Op.String())
+		// the loop over the per-slot records: the one that parses them
+		var parse core.Site
+		for _, s := range core.SitesNamed(f, false, "pkg/redis/checkpoint.ParseBisyncCommitRecordMap") {
+			parse = s
+		}
+		var head *ssa.BasicBlock
+		if parse.Instr != nil {
+			head = core.LoopHeadOf(parse.Instr.Block())
+		}
+		var best *ssa.Phi
+		if head != nil {
+			for _, in := range head.Instrs {
+				if ph, ok := in.(*ssa.Phi); ok && strings.HasSuffix(ph.Type().String(), "checkpoint.BisyncCommitRecord") {
+					best = ph
+				}
 			}
 		}
-		r.Check(gt && eq && mt && len(odd) == 0, "LoadBisyncLatestStartRecord/best", f.Pos(), "the start record must be the one with the greatest end offset (then newest mtime); comparing anything else (for instance the unit sequence, which restarts after a full sync) resumes from a stale slot record (found gt=%v eq=%v mtime=%v other=%v)", gt, eq, mt, odd)
+		if head == nil || best == nil {
+			r.Undecided("LoadBisyncLatestStartRecord/best", f.Pos(), "the loop that keeps the best per-slot record was not found")
+		} else {
+			isCand := func(v ssa.Value) bool {
+				e, ok := core.Unwrap(v).(*ssa.Extract)
+				return ok && e.Index == 0 && e.Tuple == parse.Value()
+			}
+			classify := func(p *core.Path, v ssa.Value) string {
+				ld, ok := core.Unwrap(p.Resolve(v)).(*ssa.UnOp)
+				if !ok || ld.Op != token.MUL {
+					return ""
+				}
+				fa, ok := ld.X.(*ssa.FieldAddr)
+				if !ok {
+					return ""
+				}
+				base := core.Unwrap(p.Resolve(fa.X))
+				if !isCand(base) && base != ssa.Value(best) {
+					return ""
+				}
+				dim := map[string]string{"EndOffset": "A", "MTime": "B"}[core.FieldName(fa)]
+				if dim == "" {
+					return "?" + core.FieldName(fa) // some other field of the two records
+				}
+				if isCand(base) {
+					return "c" + dim
+				}
+				return "b" + dim
+			}
+			foreign := ""
+			replaces := func(p *core.Path) bool {
+				nv := p.NextIter(best)
+				if nv == nil || !isCand(nv) {
+					return false
+				}
+				// the first matching record replaces "none yet" unconditionally
+				if p.Holds(token.EQL, func(v ssa.Value) bool { return v == ssa.Value(best) }, core.IsNilConst) {
+					return false
+				}
+				for _, fct := range p.Conds {
+					if c, ok := core.AsCmp(p.Resolve(fct.Cond), fct.Val); ok {
+						kx, ky := classify(p, c.X), classify(p, c.Y)
+						if strings.HasPrefix(kx, "?") && strings.HasPrefix(ky, "?") {
+							foreign = kx[1:]
+						}
+					}
+				}
+				return true
+			}
+			rep, paths, okEnum := orderingTableP(head, replaces, func(p *core.Path, v ssa.Value) string {
+				k := classify(p, v)
+				if strings.HasPrefix(k, "?") {
+					return ""
+				}
+				return k
+			})
+			var wrong []string
+			names := []string{"<", "=", ">"}
+			for a := 0; a < 3; a++ {
+				for b := 0; b < 3; b++ {
+					want := a == 2 || (a == 1 && b == 2)
+					if rep[a][b] != want {
+						wrong = append(wrong, "end offset "+names[a]+", mtime "+names[b]+": replaced="+boolStr(rep[a][b]))
+					}
+				}
+			}
+			if !okEnum || paths == 0 {
+				r.Undecided("LoadBisyncLatestStartRecord/best", f.Pos(), "no path of the loop replaces the best record (paths=%d)", paths)
+			} else {
+				r.Check(len(wrong) == 0 && foreign == "", "LoadBisyncLatestStartRecord/best", head.Instrs[0].Pos(), "the start record must be the one with the greatest end offset (then newest mtime); comparing anything else (for instance the unit sequence, which restarts after a full sync) resumes from a stale slot record; decided over the nine orderings, wrong for %v, other field compared: %q", wrong, foreign)
+			}
+		}
 	}
 }
 
